@@ -195,8 +195,15 @@ class Problem:
         return self.D_true[:, np.asarray(cs, dtype=np.int64)]
 
     def metric_fn(self):
-        from enspara.cluster import util
-        return util._get_distance_method(self.metric)
+        """the callable behind the metric name, through PUBLIC functions only (what the private
+        util._get_distance_method resolves the names to)"""
+        if callable(self.metric):
+            return self.metric
+        if self.metric == 'rmsd':
+            import mdtraj as md
+            return md.rmsd
+        from enspara.geometry import libdist
+        return {'euclidean': libdist.euclidean, 'manhattan': libdist.manhattan}[self.metric]
 
     def D_model(self):
         """table for the model: what the metric handed to the code returns, column by column"""
@@ -389,6 +396,49 @@ def _norm(res):
             'centers': list(res.centers)}
 
 
+class PrivateHelperChanged(Exception):
+    """a private (underscore) helper of enspara is missing or can no longer be called as modelled"""
+
+
+PRIVATE_TROUBLE = []      # messages; reported once per run as a disagreement, never as an exception
+
+
+def call_private(module, name, ordered, optional=None):
+    """call the private helper `module.name`: `ordered` = [(parameter name, value), ...] in the modelled
+    positional order, `optional` = {name: value} keyword extras.  Arguments are bound by the parameter NAMES of
+    the actual signature (so positional <-> keyword-only changes do not matter); if names were changed the
+    modelled positional order is tried; if that cannot be bound either -> PrivateHelperChanged."""
+    import inspect
+    fn = getattr(module, name, None)
+    if fn is None:
+        raise PrivateHelperChanged('%s.%s no longer exists' % (module.__name__, name))
+    optional = dict(optional or {})
+    try:
+        params = inspect.signature(fn).parameters
+    except (TypeError, ValueError):
+        params = None
+    if params is not None:
+        names = set(params)
+        varkw = any(p.kind == p.VAR_KEYWORD for p in params.values())
+        if all(k in names or varkw for k, _ in ordered) and \
+                not any(params[k].kind == params[k].POSITIONAL_ONLY for k, _ in ordered if k in params):
+            kw = dict(ordered)
+            kw.update({k: v for k, v in optional.items() if k in names or varkw})
+            missing = [p for p in params.values() if p.default is p.empty and p.name not in kw
+                       and p.kind in (p.POSITIONAL_OR_KEYWORD, p.KEYWORD_ONLY)]
+            if not missing:
+                return fn(**kw)
+        # names differ: modelled positional order, optional extras only where they still exist
+        try:
+            inspect.signature(fn).bind(*[v for _, v in ordered],
+                                       **{k: v for k, v in optional.items() if k in names or varkw})
+        except TypeError as e:
+            raise PrivateHelperChanged('%s.%s%s cannot be called as modelled (%s)' % (
+                module.__name__, name, inspect.signature(fn), e))
+        return fn(*[v for _, v in ordered], **{k: v for k, v in optional.items() if k in names or varkw})
+    return fn(*[v for _, v in ordered], **optional)
+
+
 def _state_arrays(st, n, adt='int64', ddt='float64'):
     return (np.array(st['assign'], dtype=adt).reshape(n), np.array(st['dist'], dtype=ddt).reshape(n),
             [int(i) for i in st['inds']])
@@ -539,10 +589,24 @@ def run_real(P, case, n_iters=None, record=None):
             res['rounds'] = rounds
             res['ok'] = rounds[-1]
         elif kind == 'pam_update':
-            mi, dd, aa, cc = km._kmedoids_pam_update(X, P.metric_fn(), i0, a0, d0, proposals=props,
-                                                     random_state=rs)
-            res['ok'] = {'inds': [int(i) for i in mi], 'assign': np.asarray(aa),
-                         'dist': np.asarray(dd, dtype=float), 'centers': list(cc)}
+            try:
+                if PRIVATE_TROUBLE:
+                    raise PrivateHelperChanged(PRIVATE_TROUBLE[0])
+                mi, dd, aa, cc = call_private(
+                    km, '_kmedoids_pam_update',
+                    [('X', X), ('metric', P.metric_fn()), ('medoid_inds', i0), ('assignments', a0),
+                     ('distances', d0)], {'proposals': props, 'random_state': rs})
+                res['ok'] = {'inds': [int(i) for i in mi], 'assign': np.asarray(aa),
+                             'dist': np.asarray(dd, dtype=float), 'centers': list(cc)}
+            except PrivateHelperChanged as e:
+                # the private sweep helper cannot be driven as modelled: one sweep from the full warm start
+                # through the public function is the same computation
+                if not PRIVATE_TROUBLE:
+                    PRIVATE_TROUBLE.append(str(e))
+                res['via_public'] = True
+                r = km.kmedoids(X, metric, n_iters=1, assignments=a0, distances=d0, cluster_center_inds=i0,
+                                proposals=props, random_state=rs)
+                res['ok'] = _norm(r)
         elif kind in ('hybrid', 'KHybrid.fit'):
             if kind == 'hybrid':
                 if ncl is not None:
@@ -1460,30 +1524,83 @@ def phase1(ctx, case, area='C01'):
         return rec
     initial = None
     if kind == 'kmedoids' and case.get('warm', 'cold') == 'cold':
-        from enspara.cluster import kmedoids as km
-        rs0 = RecRS(case['seed']) if case.get('rs') == 'rec' else case.get('seed')
-        with quiet_logs():
-            _, _, ci = km._kmedoids_inputs_tree(P.X, P.metric_fn(), case['n_clusters'], None, None, None, None,
-                                                random_state=rs0)
-        initial = [int(i) for i in ci]
+        initial = cold_start_centers(P, case)
+        if initial is None:
+            if 'cold-start' not in [t[:10] for t in PRIVATE_TROUBLE]:
+                PRIVATE_TROUBLE.append('cold-start centers of kmedoids() are not observable through its first '
+                                       'n_clusters metric calls any more')
+            ctx.tag('model-skipped-cold-start-unobservable')
+            return rec
     oracle = oracle_positions(out['log']) if out.get('log') else []
     rec['rq'] = model_request(P, case, oracle=oracle, initial=initial, area=area)
     return rec
 
 
+def cold_start_centers(P, case):
+    """the frames a cold start of kmedoids() draws as initial centers, observed through the PUBLIC function: its
+    input normalisation computes `assign_to_nearest_center(X, X[centers])`, i.e. the first n_clusters metric
+    calls have the drawn centers, in order, as second argument.  None when that cannot be observed."""
+    from enspara.cluster import kmedoids as km
+    k = case['n_clusters']
+    base = P.metric_fn()
+    seen = []
+
+    def recording(X_, y):
+        if len(seen) < k:
+            seen.append(P.frame_id(y))
+        return base(X_, y)
+    rs0 = RecRS(case['seed']) if case.get('rs') == 'rec' else case.get('seed')
+    try:
+        with quiet_logs():
+            km.kmedoids(P.X, recording, n_clusters=k, n_iters=1, random_state=rs0)
+    except Exception:  # noqa
+        pass
+    if len(seen) != k or any(i is None for i in seen) or len(set(seen)) != k:
+        return None
+    return [int(i) for i in seen]
+
+
+def _safely(ctx, what, case, fn, private=False):
+    """run a harness step that calls into the real code; an unexpected exception never escapes"""
+    try:
+        return fn()
+    except Exception as e:  # noqa
+        import traceback
+        where = traceback.format_exc().strip().split('\n')[-3:]
+        msg = '%s: unexpected %s (%s) at %s' % (what, type(e).__name__, str(e)[:160], ' | '.join(w.strip() for w in where))
+        if private:
+            ctx.disagreement(msg, dict(case))
+        else:
+            ctx.violation(msg, dict(case))
+        return None
+
+
 def check_cases(ctx, cases, area='C01', extra=None):
     """phase 1 on every case, one batched driver call, then the comparisons.
-    `extra(ctx, rec, model_response_or_None)` lets C09 add its predicates."""
-    recs = [phase1(ctx, c, area=area) for c in cases]
+    `extra(ctx, rec, model_response_or_None)` lets C09 add its predicates.
+    No exception of the real code escapes: on a public entry point it is a violation of the case, in a step
+    that only serves the model comparison it is a disagreement."""
+    del PRIVATE_TROUBLE[:]
+    recs = []
+    for c in cases:
+        r = _safely(ctx, 'running %s' % c.get('kind'), c, lambda c=c: phase1(ctx, c, area=area))
+        if r is not None:
+            recs.append(r)
     todo = [r for r in recs if r['rq'] is not None]
     resp = ctx.driver([r['rq'] for r in todo]) if todo else []
     for r, m in zip(todo, resp):
         r['model'] = m
-        compare_with_model(ctx, r['P'], r['case'], r['out'], m, area=area)
+        _safely(ctx, 'comparing %s with the model' % r['case'].get('kind'), r['case'],
+                lambda r=r, m=m: compare_with_model(ctx, r['P'], r['case'], r['out'], m, area=area), private=True)
     if extra:
         for r in recs:
             if not r['bad']:
-                extra(ctx, r, r.get('model'))
+                _safely(ctx, '%s predicates on %s' % (area, r['case'].get('kind')), r['case'],
+                        lambda r=r: extra(ctx, r, r.get('model')))
+    if PRIVATE_TROUBLE:
+        first = next((r['case'] for r in recs if r['out'].get('via_public')), cases[0] if cases else {})
+        ctx.disagreement('private helper can no longer be driven as modelled: %s (the public API was used instead)'
+                         % '; '.join(PRIVATE_TROUBLE), dict(first))
     return recs
 
 
